@@ -693,8 +693,9 @@ func (ref *Node) DoNewObject(t reflect.Type, m meta.Definition, insideList bool)
 	case reflect.Ptr:
 		return reflect.New(t.Elem()), nil
 	case reflect.Interface:
-		switch x := m.(type) {
-		case *meta.List:
+		// an entry of a list is a container, only the list itself is a map keyed by the list's key
+		x, isList := m.(*meta.List)
+		if isList && !insideList {
 			keyMeta := x.KeyMeta()
 			if len(keyMeta) == 1 {
 				// support some common key types, but anything too unusual should have
